@@ -193,3 +193,10 @@ func clauseFailStop(cc *ast.CaseClause) bool {
 func hasSuffixStr(s, suf string) bool {
 	return len(s) >= len(suf) && s[len(s)-len(suf):] == suf
 }
+
+func constantInt64(v constant.Value) (int64, bool) {
+	if v == nil || v.Kind() != constant.Int {
+		return 0, false
+	}
+	return constant.Int64Val(v)
+}
